@@ -308,10 +308,27 @@ func extractC02(c *Ctx) error {
 		return fmt.Errorf("msgServer.checkOrchestratorValidatorInSet not found")
 	}
 	bondedReq := strings.Contains(strings.ReplaceAll(c.Src(chk.Body), " ", ""), "ifval==nil||!val.IsBonded(){")
+	// … and first bind the named orchestrator to the creator of the message (the account the ante
+	// handler checked against the signers): `if msg.Orchestrator != msg.Metadata.Creator { return nil, … }`
+	// as a top-level statement of the handler, before the validator lookup
+	creatorBound := map[string]bool{}
 	for _, h := range []string{"SendToPalomaClaim", "BatchSendToRemoteClaim", "LightNodeSaleClaim"} {
 		fn := FindFunc(mf, "msgServer", h)
 		if fn == nil {
 			return fmt.Errorf("msgServer.%s not found", h)
+		}
+		for _, st := range fn.Body.List {
+			is, ok := st.(*ast.IfStmt)
+			if !ok || is.Init != nil || is.Else != nil || len(is.Body.List) != 1 {
+				continue
+			}
+			cond := strings.ReplaceAll(c.Src(is.Cond), " ", "")
+			ret, isRet := is.Body.List[0].(*ast.ReturnStmt)
+			chk0 := Calls(fn.Body, "checkOrchestratorValidatorInSet")
+			if (cond == "msg.Orchestrator!=msg.Metadata.Creator" || cond == "msg.Metadata.Creator!=msg.Orchestrator") && isRet && len(ret.Results) == 2 &&
+				c.Src(ret.Results[0]) == "nil" && c.Src(ret.Results[1]) != "nil" && len(chk0) == 1 && is.Pos() < chk0[0].Pos() {
+				creatorBound[h] = true
+			}
 		}
 		a, b := Calls(fn.Body, "checkOrchestratorValidatorInSet"), Calls(fn.Body, "claimHandlerCommon")
 		if len(a) != 1 || len(b) != 1 || a[0].Pos() > b[0].Pos() {
@@ -344,6 +361,10 @@ func extractC02(c *Ctx) error {
 	c.P("Definition tally_aborts_on_error : bool := %v.", abort)
 	c.P("(* msgServer.checkOrchestratorValidatorInSet: `if val == nil || !val.IsBonded()` rejects; called by all three claim handlers before Attest *)")
 	c.P("Definition vote_requires_bonded : bool := %v.", bondedReq)
+	c.P("(* claim handlers: `if msg.Orchestrator != msg.Metadata.Creator { return nil, err }` before the validator lookup, per claim type *)")
+	c.P("Definition creator_bound_deposit : bool := %v.", creatorBound["SendToPalomaClaim"])
+	c.P("Definition creator_bound_batch : bool := %v.", creatorBound["BatchSendToRemoteClaim"])
+	c.P("Definition creator_bound_sale : bool := %v.", creatorBound["LightNodeSaleClaim"])
 	c.P("(* stores of the oracle opened with the chain reference id of the call (attestation.go getters/setters, overrideNonce, UpdateValidatorNoncesToLatest) *)")
 	c.P("Definition per_chain_store_sites : Z := %d.", len(sites))
 	c.P("(* pruneAttestations *)")
@@ -354,6 +375,7 @@ func extractC02(c *Ctx) error {
 	c.Info("events_to_keep", keep)
 	c.Info("tally_aborts_on_error", abort)
 	c.Info("vote_requires_bonded", bondedReq)
+	c.Info("creator_bound", fmt.Sprintf("deposit=%v batch=%v sale=%v", creatorBound["SendToPalomaClaim"], creatorBound["BatchSendToRemoteClaim"], creatorBound["LightNodeSaleClaim"]))
 	c.Info("per_chain_store_sites", len(sites))
 	return nil
 }
